@@ -571,7 +571,8 @@ class StrategyBase(Node):
 
             paper = deepcopy(self)
             paper.parent = paper
-            paper.root = paper
+            # the copied children still name (a copy of) the old root
+            paper._set_root(paper)
             paper._paper_trade = False
             paper.setup(self._original_data, **kwargs)
             paper.adjust(self._paper_amount)
